@@ -54,8 +54,8 @@ PAIR_ASSUME = ["scripts are well-formed on the reference engine", "columns prese
 PROPS = {
     "C16": {
         "level": "proof",
-        "lean_modules": ["SqlizeModel.Props.C16", "SqlizeModel.Props.TieUtilsStr", "SqlizeModel.Props.TieBuilder"],
-        "theorems": ["Sqlize.C16.main", "Sqlize.C16.noCollision", "Sqlize.Tie.utils_str_skeleton_as_modelled", "Sqlize.Tie.builder_skeleton_as_modelled"],
+        "lean_modules": ["SqlizeModel.Props.TieStrGo", "SqlizeModel.Props.C16", "SqlizeModel.Props.TieUtilsStr", "SqlizeModel.Props.TieBuilder"],
+        "theorems": ["Sqlize.Tie.translated_is_model", "Sqlize.Tie.gen_nextIsLower", "Sqlize.Tie.gen_fold", "Sqlize.C16.main", "Sqlize.C16.noCollision", "Sqlize.Tie.utils_str_skeleton_as_modelled", "Sqlize.Tie.builder_skeleton_as_modelled"],
         "suites": [{"name": "snake"}],
         "rule": "exhaustive strings over {a,s,B,1,_} up to length 6 (quick) / 9 (thorough) + random ASCII identifiers "
                 "of length 1..25 biased to caps runs and final 's', + the builder route (column names AddTable prints for one-field structs with fixed and random exported field names, "
@@ -63,13 +63,16 @@ PROPS = {
                 "Lean model Snake.toSnake and the executable C16 predicate SnakeSpec.snakeSpecOK evaluated on the Go output; "
                 "non-trivial = output differs from input; distinct by input",
         "trusted_base": COMMON_TB + [
-            "hand-written model Impl/Snake.lean of utils.ToSnakeCase, tied by correspondence on the enumerated/generated inputs only",
+            "hand-written model Impl/Snake.lean of utils.ToSnakeCase, tied (a) by the translator: Generated/StrGo.lean is regenerated from utils/str.go on every run (factgen translate.go: runes/bytes as code points, the loop as a fold) and proved equal to the model on ASCII input (Tie.translated_is_model), (b) by correspondence on the enumerated/generated inputs",
+            "the translator's conventions (translate.go header): byte(x) = x % 256, strings as lists of code points, ints as Nat; forms outside its fragment are refused",
             "ASCII input only: Go truncates non-ASCII runes to bytes, which the model does not represent",
         ],
         "assumptions": ["identifiers are ASCII (Go identifiers of exported struct fields used by the builder)"],
         "explanation": "C16.main proves, for every input list of characters, that the model of ToSnakeCase is a marking of the "
                        "lower-cased input obeying the placement rules, idempotent, and accepted by the executable predicate; "
-                       "C16.noCollision proves loss-freeness up to case/underscores.",
+                       "C16.noCollision proves loss-freeness up to case/underscores. The model is tied to the source by a translator: the five functions of utils/str.go are translated to Lean on every run "
+                       "and Tie.translated_is_model proves the translated ToSnakeCase equal to the model for every ASCII input, so the theorems hold of the code as it reads now; a changed function either keeps the proof (harmless rewrite: "
+                       "`r >= 'a'` re-spelled `'a' <= r`) or breaks it (`r < 'z'`), and then the correspondence supplies the failing input.",
     },
 
     "C01": {
@@ -289,8 +292,8 @@ PROPS = {
 
     "C11": {
         "level": "proof",
-        "lean_modules": ["SqlizeModel.Props.C11", "SqlizeModel.Props.TieUtilsFile", "SqlizeModel.Props.TieApiFiles"],
-        "theorems": ["Sqlize.C11.sanitize_charset", "Sqlize.C11.nothing_when_empty", "Sqlize.C11.files_written", "Sqlize.C11.read_filter", "Sqlize.C11.read_sorted", "Sqlize.C11.sort_perm", "Sqlize.Tie.utils_file_skeleton_as_modelled", "Sqlize.Tie.api_files_skeleton_as_modelled"],
+        "lean_modules": ["SqlizeModel.Props.C11", "SqlizeModel.Proofs.FilesOrder", "SqlizeModel.Props.TieUtilsFile", "SqlizeModel.Props.TieApiFiles"],
+        "theorems": ["Sqlize.Files.successive_writes_reload_in_order", "Sqlize.Files.read_back_in_write_order", "Sqlize.Files.name_lt_of_ts_lt", "Sqlize.C11.sanitize_charset", "Sqlize.C11.nothing_when_empty", "Sqlize.C11.files_written", "Sqlize.C11.read_filter", "Sqlize.C11.read_sorted", "Sqlize.C11.sort_perm", "Sqlize.Tie.utils_file_skeleton_as_modelled", "Sqlize.Tie.api_files_skeleton_as_modelled"],
         "suites": [{"name": "files"}],
         "corr_points": None,
         "rule": "scratch directories under /verif/.work (removed afterwards): 17 migration names (blanks, dashes, tabs/newlines, path separators, dots, "
@@ -304,7 +307,8 @@ PROPS = {
                                      "regenerated facts: genDescription, emptyMigration, default suffixes"],
         "assumptions": ["folder exists and is writable unless the case says otherwise", "timestamps of successive writes strictly increase (1 s resolution)"],
         "explanation": "Proved for all names: sanitised name part is [a-z0-9_]*; file set/contents of writeFiles; ReadPath = filter of the name-sorted "
-                       "listing. OS and clock are outside the proof (partial by nature).",
+                       "listing; and successive writes reload in write order (successive_writes_reload_in_order): for calls at strictly increasing clock readings of the same width, whatever else the folder holds that the filter rejects "
+                       "and whatever order the directory is listed in, ReadPath returns header + migration text of every call in call order. OS and clock are outside the proof (partial by nature); two writes within one second are the recorded finding.",
     },
 
     "C14": {
@@ -355,10 +359,10 @@ PROPS = {
 
     "C04": {
         "level": "proof",
-        "lean_modules": ["SqlizeModel.Props.C04", "SqlizeModel.Props.TieElement", "SqlizeModel.Props.TieApiLoad", "SqlizeModel.Props.TieApiFiles"],
+        "lean_modules": ["SqlizeModel.Props.C04", "SqlizeModel.Proofs.ScopeB", "SqlizeModel.Props.TieElement", "SqlizeModel.Props.TieApiLoad", "SqlizeModel.Props.TieApiFiles"],
         "theorems": ["Sqlize.C04.converges", "Sqlize.C04.next_diff_empty", "Sqlize.C04.down_returns", "Sqlize.C04.history_schema",
                      "Sqlize.C04.model_converges", "Sqlize.C04.model_next_diff_empty", "Sqlize.rounds", "Sqlize.schema_up_vocab", "Sqlize.UpScope.of_equiv",
-                     "Sqlize.execAll_textual", "Sqlize.Migration.diff_plain", "Sqlize.Migration.migrate_mem", "Sqlize.Tie.element_skeleton_as_modelled", "Sqlize.Tie.api_load_skeleton_as_modelled", "Sqlize.Tie.api_files_skeleton_as_modelled", "Sqlize.C04.model_down_returns", "Sqlize.rounds_down", "Sqlize.exec_equiv", "Sqlize.execAll_equiv", "Sqlize.exec_nodup", "Sqlize.DBE.of_equiv", "Sqlize.C04.model_fingerprint", "Sqlize.rounds_fingerprint", "Sqlize.rounds_ordered", "Sqlize.hashOf_of_equiv", "Sqlize.foldl_stepNames", "Sqlize.execAll_groups_names", "Sqlize.hash_of_schema"],
+                     "Sqlize.execAll_textual", "Sqlize.Migration.diff_plain", "Sqlize.Migration.migrate_mem", "Sqlize.Tie.element_skeleton_as_modelled", "Sqlize.Tie.api_load_skeleton_as_modelled", "Sqlize.Tie.api_files_skeleton_as_modelled", "Sqlize.C04.model_down_returns", "Sqlize.rounds_down", "Sqlize.exec_equiv", "Sqlize.execAll_equiv", "Sqlize.exec_nodup", "Sqlize.DBE.of_equiv", "Sqlize.proved_chain", "Sqlize.proved_chain_fingerprint", "Sqlize.proved_chain_down", "Sqlize.C04.model_fingerprint", "Sqlize.rounds_fingerprint", "Sqlize.rounds_ordered", "Sqlize.hashOf_of_equiv", "Sqlize.foldl_stepNames", "Sqlize.execAll_groups_names", "Sqlize.hash_of_schema"],
         "suites": [{"name": "history", "timeout": 3600}],
         "corr_points": None,
         "rule": "history suite: revision sequences M1..Mk (k = 2..8 quick, ..40 thorough) of random schemas and C01 change sets (drop table, drop "
@@ -402,8 +406,8 @@ PROPS = {
     },
     "C10": {
         "level": "proof",
-        "lean_modules": ["SqlizeModel.Props.C10", "SqlizeModel.Props.TieBuilder", "SqlizeModel.Props.TieTemplates"],
-        "theorems": ["Sqlize.C10.keyword_spellings", "Sqlize.C10.keywords_fixed", "Sqlize.C10.apply_only_case", "Sqlize.C10.hash_case_free", "Sqlize.C10.keyword_case_statement", "Sqlize.C10.keyword_case_migration", "Sqlize.render_case_only", "Sqlize.migration_case_only", "Sqlize.sprintfAux_case", "Sqlize.templates_ok", "Sqlize.definition_case", "Sqlize.opt_case", "Sqlize.Tie.builder_skeleton_as_modelled", "Sqlize.Tie.templates_skeleton_as_modelled"],
+        "lean_modules": ["SqlizeModel.Props.TieStrGo", "SqlizeModel.Props.C10", "SqlizeModel.Props.TieBuilder", "SqlizeModel.Props.TieTemplates"],
+        "theorems": ["Sqlize.Tie.translated_is_model", "Sqlize.C10.keyword_spellings", "Sqlize.C10.keywords_fixed", "Sqlize.C10.apply_only_case", "Sqlize.C10.hash_case_free", "Sqlize.C10.keyword_case_statement", "Sqlize.C10.keyword_case_migration", "Sqlize.render_case_only", "Sqlize.migration_case_only", "Sqlize.sprintfAux_case", "Sqlize.templates_ok", "Sqlize.definition_case", "Sqlize.opt_case", "Sqlize.Tie.builder_skeleton_as_modelled", "Sqlize.Tie.templates_skeleton_as_modelled"],
         "suites": [{"name": "struct", "kind": "struct"}, {"name": "hash"}, {"name": "pair"}],
         "corr_points": ["AddTable", "AddTable-other-case", "StringUp-other-case", "StringDown-other-case"],
         "rule": STRUCT_RULE + " | C10: per tag keyword a random camelCase / snake_case spelling and a shuffled item order, the expected schema does not "
